@@ -36,8 +36,8 @@ META = {
                   "without a FrozenType wrapper; VectorType(type , n) of 5.0); the harness's independent encoder of the "
                   "protocol value formats used for the witness value. A reversed type's CQL name is its base type's and is "
                   "read through the driver's own cassandra.metadata._cql_from_cass_type (which unwraps ReversedType). "
-                  "Leaves are int and text only, one keyspace, six UDT names (four of them need quoting: mixed case, space, "
-                  "dash, embedded double quote; an apostrophe in a name is outside the alphabet), vector dimension 2; "
+                  "Leaves are int and text only, one keyspace, seven UDT names (five of them need quoting: mixed case, space, "
+                  "dash, embedded double quote, apostrophe), vector dimension 2; "
                   "Cassandra >= 3.6 "
                   "descriptors that wrap UserType in FrozenType are outside the dialect.",
     "design_ref": "5.6 C28",
@@ -190,7 +190,7 @@ def run(ctx):
     ctx.note("trees", len(seen))
     ctx.assumptions += ["descriptor dialect of Cassandra 2.1-3.5 (tuples / UDTs implicitly frozen, no FrozenType wrapper "
                         "around them); reversed only outermost and named as its base type",
-                        "leaves int and text; keyspace ks; UDT names u, kj, Kj, \"Big Type\", other-udt, a\"b; vector dimension 2"]
+                        "leaves int and text; keyspace ks; UDT names u, kj, Kj, \"Big Type\", other-udt, a\"b, it's; vector dimension 2"]
 
 
 def report(ctx, failures):
